@@ -7,6 +7,9 @@
 #   e == NULL, e != NULL   is_null
 #   f(e) (listed helper)   c_f e
 #   for(;c;step);          fuelled loop c_<name>_loopN (fuel parameter of the enclosing definition)
+#   f(e) (f itself)        recursion on explicit fuel: Fixpoint c_f (fuel) ..., nofuel when it runs out
+#   free(p)                free_node p       Crash when p is NULL / not allocated (double free); afterwards p is not allocated
+#   free(p->name|data)     dropped: the payload buffers are not part of this heap model
 #   <counter>++            dropped: only for the global statistics counters named in COUNTERS
 #   errno = E              dropped (the helpers' errno is not part of what is proved here)
 # Anything else stops the translation with an error naming the construct: a change of the C text that leaves this
@@ -14,7 +17,8 @@
 import os, re, json, subprocess
 
 FUNCS = ['is_red', 'flip_color', 'rotate_left', 'rotate_right', 'move_red_left', 'move_red_right', 'fix',
-         'find_min', 'find_max']
+         'find_min', 'find_max', 'remove_min']
+PAYLOAD = ('name', 'data')      # fields of the node object that are not part of the heap model
 COUNTERS = re.compile(r'^_q_treetbl_\w+_cnt$')
 FIELDS = ('red', 'left', 'right')
 
@@ -51,6 +55,7 @@ class Fn:
         self.n = 0
         self.loops = []     # text of auxiliary fuelled loop definitions
         self.uses_fuel = False
+        self.recursive = False
         self.locals = set(self.params)
 
     def fresh(self):
@@ -112,10 +117,18 @@ class Fn:
         if k == 'CallExpr':
             f = strip(n['inner'][0])
             nm = f.get('referencedDecl', {}).get('name')
+            if nm == 'free' and len(n['inner']) == 2:
+                a = strip(n['inner'][1])
+                if a.get('kind') == 'MemberExpr' and a.get('name') in PAYLOAD:
+                    return ('p', 'tt')
+                return self.bind(self.tr(n['inner'][1]), lambda x: ('m', 'free_node %s' % x))
             if nm not in FUNCS:
                 raise Unsupported('call of %s in %s' % (nm, self.name))
             if len(n['inner']) != 2:
                 raise Unsupported('call of %s with %d arguments' % (nm, len(n['inner']) - 1))
+            if nm == self.name:
+                self.recursive = self.uses_fuel = True
+                return self.bind(self.tr(n['inner'][1]), lambda x: ('m', 'c_%s fuel %s' % (nm, x)))
             return self.bind(self.tr(n['inner'][1]), lambda x: ('m', 'c_%s %s' % (nm, x)))
         raise Unsupported('%s %s in %s' % (k, n.get('opcode', ''), self.name))
 
@@ -200,6 +213,8 @@ class Fn:
             raise Unsupported('increment of something other than a statistics counter in %s' % self.name)
         if k == 'CallExpr':
             r = self.tr(s)
+            if r == ('p', 'tt'):
+                return self.block(rest, tail)
             return 'bnd (%s) (fun _ =>\n  %s)' % (self.mon(r), self.block(rest, tail))
         if k == 'IfStmt':
             parts = s['inner']
@@ -244,6 +259,9 @@ class Fn:
     def emit(self):
         body = self.block(self.body.get('inner', []), None)
         ps = ' '.join('(%s : ptr)' % p for p in self.params)
+        if self.recursive:
+            return ''.join(self.loops) + 'Fixpoint c_%s (fuel : nat) %s : M %s :=\n  match fuel with O => nofuel | S fuel =>\n  %s end.\n' % (
+                self.name, ps, 'ptr' if self.ret_ptr else 'bool', body)
         fuel = '(fuel : nat) ' if self.uses_fuel else ''
         return ''.join(self.loops) + 'Definition c_%s %s%s : M %s :=\n  %s.\n' % (self.name, fuel, ps, 'ptr' if self.ret_ptr else 'bool', body)
 
